@@ -185,6 +185,6 @@ fn body17(c: &Ctx) {
 // @harness name=c10_bds17_gate_df21 props=C10,C11 tier=quick cap=2400 mem=24
 // BDS 1,7 record, BDS 3,0 flag, and "gate closed => only altitude/squawk change", DF21
 commb!(c10_bds17_gate_df21, 21, body17);
-// @harness name=c10_bds17_gate_df20 props=C10,C11 tier=thorough cap=2400 mem=24
+// @harness name=c10_bds17_gate_df20 props=C10,C11:thorough tier=thorough cap=2400 mem=24
 // same, DF20
 commb!(c10_bds17_gate_df20, 20, body17);
